@@ -638,6 +638,11 @@ mod driver {
                     engine.add_node(node).await.is_ok()
                 }
                 Some("evict") => engine.evict_node(&xid, EvictionReason::CloseGroupRejection).await.is_ok(),
+                Some("evict_sec") => {
+                    use crate::dht::routing_maintenance::close_group_validator::CloseGroupFailure as F;
+                    let all = [F::NotInCloseGroup, F::EvictedFromCloseGroup, F::InsufficientConfirmation, F::LowTrustScore, F::InsufficientGeographicDiversity, F::SuspectedCollusion, F::AttackModeTriggered];
+                    engine.evict_node_for_security(&xid, all[(u(case, "failure_reason") as usize) % all.len()].clone()).await.is_ok()
+                }
                 _ => engine.handle_node_failure(xid.clone()).await.is_ok(),
             };
             out.insert("ok".into(), json!(ok));
